@@ -47,6 +47,8 @@ def rand_mol(rnd: random.Random, max_atoms=5, syms=SYMS, zero_values=True, p_bon
             a["rad"] = rnd.choice([0, 1, 2, 3] if zero_values else [1, 2, 3])
         if rnd.random() < .4 and a["sym"] not in "DT":
             a["mass"] = rnd.choice([0, 2, 13, 18] if zero_values else [2, 13, 18])
+        elif zero_values and a["sym"] in "DT" and rnd.random() < .3:
+            a["mass"] = 0   # an explicitly written default on a D/T atom: MASS=0 means the same as omitting it, the symbol still says 2 / 3
         atoms.append(a)
     bonds = []
     for i in range(n):
